@@ -18,7 +18,23 @@ BASES = {
     "dirfile": [[[10, 3], 0], [[10, 3, 2], 2]],
     "std": [[[10, 1], 1], [[10, 3], 0], [[10, 3, 2], 2]],
     "two": [[[10, 1], 1], [[10, 2], 2]],
+    "out": [[[10, 1], 1], [[10, 3], 0], [[10, 3, 2], 2], [[11], 0], [[11, 1], 7], [[12], 0], [[12, 2], 8], [[6], 9]],
 }
+
+
+def _prio_fn(table):
+    """table: {name code (str): priority}; the application's prioritize(side, path) looks at the leaf name."""
+    if not table:
+        return None
+    from .sysdrv import NAMES
+
+    def fn(side, path):
+        leaf = path.rstrip("/").split("/")[-1]
+        for code, name in NAMES.items():
+            if name == leaf and str(code) in table:
+                return table[str(code)]
+        return 0
+    return fn
 
 
 def execute(case):
@@ -27,12 +43,21 @@ def execute(case):
     try:
         s = System(case.get("flavor", "oid/oid"), storage=case.get("storage", "mock"),
                    resolver=tuple(case["resolver"]) if case.get("resolver") else None,
-                   aging=case.get("aging", 0.0))
+                   aging=case.get("aging", 0.0), whole=case.get("whole", False),
+                   root_by_oid=case.get("root_by_oid", False), decline=case.get("decline"),
+                   prioritize=_prio_fn(case.get("prio")))
         base = case["base"]
         if isinstance(base, str):
             base = BASES[base]
         s.begin(base, case.get("base_side", 0))
+        if case.get("kase"):
+            d = {"ev": "Case"}
+            d.update(case["kase"])
+            s.rec.events.append(d)
         s.run_tokens(case["tokens"])
+        if s.inj is not None:
+            s.rec.ev("Note", ncalls=s.inj["n"], nmut=s.inj["nmut"], nsw=s.storage.nwrites if s.storage else 0,
+                     fired=1 if s.inj.get("fired") else 0)
         try:
             s.cs.done()
         except Exception:
@@ -58,7 +83,7 @@ def run_cases(ctx, cases, chunksize=None):
     return traces
 
 
-def judge(ctx, cases, traces, what, clauses=None, extra_sig=None, cfg="Trace_Sys.cfg", module="Trace_Sys"):
+def judge(ctx, cases, traces, what, clauses=None, extra_sig=None, cfg="Trace_Sys.cfg", module="Trace_Sys", accept=None):
     """Validate traces with TLC; report clause failures (restricted to `clauses` when given)."""
     viols, done, nonconf = tc.validate(ctx, module, cfg, traces, what, extended=True, min_batch=1500)
     bad = set()
@@ -67,6 +92,8 @@ def judge(ctx, cases, traces, what, clauses=None, extra_sig=None, cfg="Trace_Sys
             continue
         tags = sorted(rest[0]) if rest else []
         case = cases[ti]
+        if accept is not None and not accept(case, clause):
+            continue
         sig = {"clause": clause, "flavor": case.get("flavor", "oid/oid"), "tags": tags}
         if extra_sig:
             sig.update(extra_sig(case, traces[ti], line))
@@ -82,7 +109,7 @@ def _strip(ev):
 
 
 def _short(case):
-    return {k: v for k, v in case.items() if k in ("flavor", "base", "tokens", "resolver", "family", "aging")}
+    return {k: v for k, v in case.items() if k in ("flavor", "base", "tokens", "resolver", "family", "aging", "kase", "prio")}
 
 
 # ---- seeded random histories (deeper than the exhaustive family) -------------------------------------------
